@@ -45,3 +45,8 @@ claim("C15", "exploration", "bounded-exhaustive enumeration of an operation latt
       "For ~4000 op specs (conv both traversals, depthwise, max/avg pool with and without LUT, elementwise unary/binary/scalar/broadcast in 8/16/32 bit, nearest upscale; shapes incl. 1-D and non-multiple depths) x 6 accelerators every offered block configuration (quick: up to 12 evenly spaced per op; thorough: all) is handed to the real generator, must be accepted, and the decoded block and IB_END/AB_START/IB2_START/ACC_FORMAT registers must satisfy the bank arithmetic of A4; the same register check runs on every kernel op of every emitted stream.",
       "Bank counts, granules, micro-blocks are pinned in vfw/npu/isa.py; the IFM block is derived from the OFM block by the receptive-field rule with the 8x8 sub-kernel limit.",
       "DESIGN.md section 4 C15")
+
+claim("C18", "model_checking", "explicit enumeration of a generated .ini space resolved by a model written from OPTIONS.md and by the real ArchitectureFeatures (conformance on every file), plus the command-line path through vela.main()",
+      "All 34 634 files of the space (6 inheritance structures incl. self-inheritance and missing parent x placements of each option over a 3-level chain x section selections x CLI sizes incl. 0 and out-of-range) are resolved by both the model and the implementation on U55-128 and U65-256 and every resolved parameter is compared; error cases must be rejected, valid ones accepted. 96 command-line cases (bundled name vs absolute path x 3 working directories incl. one holding a decoy Arm/vela.ini x memory modes x CLI size given/absent/0) run through vela.main() and are judged on the --verbose-config output.",
+      "The model is the documented rule set R1-R9 (DESIGN.md A5); any exception counts as rejection for invalid files; inheritance cycles longer than 1 are not generated.",
+      "DESIGN.md section 4 C18")
